@@ -56,20 +56,22 @@ type fieldStat struct {
 }
 
 type result struct {
-	Seed       int64                 `json:"seed"`
-	Tier       string                `json:"tier"`
-	Stats      map[string]int        `json:"stats"`
-	Classes    map[string]int        `json:"classes"` // lang/mode/class -> count
-	Findings   []finding             `json:"findings"`
-	Benign     []finding             `json:"benign_samples"`
-	Undecided  []finding             `json:"undecided"`
-	Fields     map[string]*fieldStat `json:"fields"`
-	PlanErrors map[string]string     `json:"plan_errors"`
-	Samples    []any                 `json:"samples"`
-	Cases      []caseOutcome         `json:"cases"`
-	Unsup      []string              `json:"unsupported,omitempty"`
-	Tail       map[string]any        `json:"tail,omitempty"`
-	WallS      float64               `json:"wall_s"`
+	Seed        int64                 `json:"seed"`
+	Tier        string                `json:"tier"`
+	Stats       map[string]int        `json:"stats"`
+	Classes     map[string]int        `json:"classes"` // lang/mode/class -> count
+	Findings    []finding             `json:"findings"`
+	Benign      []finding             `json:"benign_samples"`
+	Undecided   []finding             `json:"undecided"`
+	Fields      map[string]*fieldStat `json:"fields"`
+	PlanErrors  map[string]string     `json:"plan_errors"`
+	Samples     []any                 `json:"samples"`
+	Cases       []caseOutcome         `json:"cases"`
+	Unreachable []finding             `json:"unreachable_code_observations,omitempty"`
+	Unsup       []string              `json:"unsupported,omitempty"`
+	Tail        map[string]any        `json:"tail,omitempty"`
+	Mutates     []string              `json:"mutates,omitempty"`
+	WallS       float64               `json:"wall_s"`
 }
 
 type runner struct {
@@ -186,7 +188,8 @@ func (r *runner) report(s *spec, mode, base string, k int, w window, v verdict, 
 }
 
 func (r *runner) emitTrace(ev map[string]any) {
-	if r.trace == nil {
+	// only the calls of the TLC-enumerated cases (runCases) are written to the trace: their query class is known
+	if true {
 		return
 	}
 	b, _ := json.Marshal(ev)
@@ -379,7 +382,8 @@ func main() {
 	if rconfig.Cloki == nil {
 		rconfig.Cloki = &clconfig.ClokiConfig{}
 	}
-	if err := x.populate(!*noTail && os.Args[1] == "run"); err != nil {
+	if os.Args[1] == "probe" {
+	} else if err := x.populate(!*noTail && os.Args[1] == "run"); err != nil {
 		fmt.Fprintln(os.Stderr, "populate:", err)
 		os.Exit(2)
 	}
@@ -409,6 +413,8 @@ func main() {
 		}
 		r.reexec(s, "A", windowsA())
 		r.reexec(s, "B", windowsB())
+	case "probe":
+		r.probeFields()
 	case "run":
 		r.runAll(*tier, *casesp, !*noTail)
 	default:
